@@ -113,9 +113,10 @@ Definition item_has (star_val : Z) (it : sitem) (x : Z) : bool :=
   end.
 Definition set_has (star_val : Z) (s : list sitem) (x : Z) : bool := existsb (fun it => item_has star_val it x) s.
 
-(** when two flag names denote the same flag — ONE definition (exact bytes today;
-    switch together with Model.Search.flag_eqb, see Proof/SearchAtoms.flag_cmp_agree) *)
-Definition flag_same (f flag : str) : bool := str_eqb f flag.
+(** when two flag names denote the same flag — ONE definition: RFC 3501 section 9,
+    flag names are case-insensitive (ASCII).  Tied to Model.Search.flag_eqb by
+    Proof/SearchAtoms.flag_cmp_agree. *)
+Definition flag_same (f flag : str) : bool := equal_fold f flag.
 Definition has_flag (m : smsg) (f : str) : bool := existsb (fun g => flag_same g f) (s_flags m).
 
 (** header fields of the text: the lines up to the first empty one, a line
